@@ -335,6 +335,75 @@ def _blocks_doc(rng, idgen, nblocks, with_includes):
     return blocks
 
 
+def _actmerge_layout(rng, n_act_blocks, implicit_first):
+    """[(phase, number of lines)]: n act blocks of 1-3 lines each with blocks of other phases (one marker instruction
+    each) between and around them; with implicit_first the document starts with act lines without a header."""
+    layout = []
+    others = ['setup', 'before-assert', 'assert', 'cleanup']
+    for i in range(n_act_blocks):
+        if not (i == 0 and implicit_first):
+            for _ in range(rng.choice((0, 1, 1, 2)) if i else rng.choice((0, 1))):
+                layout.append([rng.choice(others), 1])
+        layout.append(['act', rng.choice((1, 1, 2, 3))])
+        if i == 0 and implicit_first:
+            layout[-1].append('implicit')
+    if rng.random() < 0.6:
+        layout.append([rng.choice(others), 1])
+    return layout
+
+
+def run_actmerge(case, ctx):
+    """help case / help spec: a phase may be declared several times, the contents are merged in file order - also
+    for [act], whose lines are the source code of a source-interpreter actor."""
+    ses = ctx.get_session()
+    d = ses.new_case_dir()
+    log = os.path.join(d, 'log.txt')
+    lines = []
+    want = {'setup': [], 'act': [], 'before-assert': [], 'assert': [], 'cleanup': []}
+    n = 0
+    body = []
+    for blk in case['layout']:
+        ph, k = blk[0], blk[1]
+        if len(blk) < 3:
+            body.append('[%s]' % ph)
+        for _ in range(k):
+            n += 1
+            tag = '%s%d' % ('A' if ph == 'act' else 'I', n)
+            want[ph].append(tag)
+            body.append(('echo %s >> %s' if ph == 'act' else '$ echo %s >> %s') % (tag, log))
+        if n % 3 == 0:
+            body.append('')
+    lines = body + ['[conf]', 'actor = source % /bin/sh']
+    text = '\n'.join(lines) + '\n'
+    from vf import driver
+    driver.write_files(d, {'main.case': text})
+    r = ses.run(['main.case'], cwd=d, mode='normal')
+    ctx.count('c07.act_merge_runs')
+    viol, inconc = [], []
+    if r.timed_out:
+        inconc.append('watchdog')
+    else:
+        got = []
+        if os.path.exists(log):
+            with open(log) as f:
+                got = f.read().split()
+        exp = [t for p in ('setup', 'act', 'before-assert', 'assert', 'cleanup') for t in want[p]]
+        if r.exc is not None or r.rc != 0:
+            viol.append({'what': 'C07 valid document with [act] declared %d times does not PASS: rc=%r %s'
+                                 % (sum(1 for b in case['layout'] if b[0] == 'act'), r.rc, r.err[:300]),
+                         'detail': {'case_text': text, 'exc': r.exc}})
+        elif got != exp:
+            viol.append({'what': 'C07 [act] declared several times: executed %r, the document denotes %r (blocks of a '
+                                 'phase merged in file order)' % (got, exp), 'detail': {'case_text': text}})
+    for m in _take_m6():
+        viol.append({'what': 'C07 ' + m, 'detail': {'case_text': text}})
+    ses.clean_tmp()
+    ses.drop(d)
+    return {'classes': [('actmerge', sum(1 for b in case['layout'] if b[0] == 'act'),
+                         any(len(b) > 2 for b in case['layout']), len(case['layout']))],
+            'viol': viol, 'inconclusive': inconc, 'evaluations': 1}
+
+
 def cases(tier, seed):
     # ---- exhaustive small scope (parse) ---------------------------------------------------------------------
     alpha = _alphabet_reduced()
@@ -346,7 +415,7 @@ def cases(tier, seed):
             yield {'kind': 'parse', 'doc': {'name': 'main.case', 'items': _assign_ids(items),
                                             'final_nl': (sum(combo) % 3 != 0)}}
     # ---- fixed inclusion shapes ----------------------------------------------------------------------------
-    for shape in ('self', 'cycle2', 'cycle3', 'diamond', 'missing', 'unknown_phase', 'unknown_phase_in_included',
+    for shape in ('self', 'cycle2', 'cycle3', 'cycle_to_root2', 'cycle_to_root3', 'cycle_to_root_implicit_act', 'diamond', 'missing', 'unknown_phase', 'unknown_phase_in_included',
                   'cycle_via_dotdot', 'include_dir', 'unknown_phase_then_valid_header', 'unknown_phase_first_line',
                   'unknown_phase_last_line', 'same_file_twice_different_phases'):
         for ph in ('setup', 'cleanup', 'assert'):
@@ -373,6 +442,12 @@ def cases(tier, seed):
         idg = _idgen()
         nb = rng.choice((2, 3, 3, 4))
         yield {'kind': 'perm', 'blocks': _blocks_doc(rng, idg, nb, rng.random() < 0.5)}
+    # [act] declared several times and executed: the source the actor gets is the act lines in file order
+    for k in range(24):
+        r2 = common.rng_for(0, ID, 'actmerge-core', k)
+        yield {'kind': 'actmerge', 'layout': _actmerge_layout(r2, 2 + k % 3, implicit_first=k % 4 == 0)}
+    for _ in range(40 if tier == 'quick' else 600):
+        yield {'kind': 'actmerge', 'layout': _actmerge_layout(rng, rng.choice((2, 3, 4, 5)), rng.random() < 0.3)}
     n_def = 600 if tier == 'quick' else 6000
     for _ in range(n_def):
         idg = _idgen()
@@ -838,9 +913,11 @@ def run_graph(case, ctx):
     I = 'dir made-by-%s' if ph != 'assert' else 'exit-code == 0 %s'
     inst = ('dir d-%s' if ph != 'assert' else 'exists -rel-act . : type dir # %s')
     expect = None
+    chain = None
     if shape == 'self':
         files['main.case'] = '[%s]\nincluding main.case\n' % ph
         expect = 'FILE_ACCESS_ERROR'
+        chain = [('main.case', 2)]
     elif shape == 'cycle2':
         files['main.case'] = '[%s]\nincluding a.xly\n' % ph
         files['a.xly'] = 'including b.xly\n'
@@ -852,6 +929,23 @@ def run_graph(case, ctx):
         files['b.xly'] = 'including t/c.xly\n'
         files['t/c.xly'] = 'including ../s/a.xly\n'
         expect = 'FILE_ACCESS_ERROR'
+    elif shape == 'cycle_to_root2':
+        files['main.case'] = '[%s]\nincluding a.xly\n' % ph
+        files['a.xly'] = 'including main.case\n'
+        expect = 'FILE_ACCESS_ERROR'
+        chain = [('main.case', 2), ('a.xly', 1)]
+    elif shape == 'cycle_to_root3':
+        files['main.case'] = '[%s]\n\nincluding s/a.xly\n' % ph
+        files['s/a.xly'] = 'including ../b.xly\n'
+        files['b.xly'] = '\n\nincluding ./s/../main.case\n'
+        expect = 'FILE_ACCESS_ERROR'
+        chain = [('main.case', 3), ('s/a.xly', 1), ('b.xly', 3)]
+    elif shape == 'cycle_to_root_implicit_act':
+        # the root file starts with act lines (no header): on a second lap they would be read as instructions
+        files['main.case'] = 'my-program arg\n[%s]\nincluding a.xly\n' % ph
+        files['a.xly'] = 'including main.case\n'
+        expect = 'FILE_ACCESS_ERROR'
+        chain = [('main.case', 3), ('a.xly', 1)]
     elif shape == 'cycle_via_dotdot':
         files['main.case'] = '[%s]\nincluding s/a.xly\n' % ph
         files['s/a.xly'] = 'including ../s/../s/a.xly\n'
@@ -918,6 +1012,13 @@ def run_graph(case, ctx):
                              'detail': {'stderr': r.err[:800]}})
             if r.new_tmp_entries:
                 viol.append({'what': 'C07 shape %s: a sandbox was created' % shape, 'detail': {}})
+            if chain is not None:
+                got_chain = [(m.group(1), int(m.group(2))) for m in re.finditer(r'(?m)^(\S+), line (\d+)$', r.err)]
+                ctx.count('c07.cycle_chains_checked')
+                if got_chain != chain:
+                    viol.append({'what': 'C07 shape %s in [%s]: the cyclic inclusion is located at %r, the files include '
+                                         'one another along %r (every directive once)' % (shape, ph, got_chain, chain),
+                                 'detail': {'files': files, 'stderr': r.err[:800]}})
     for m in _take_m6():
         viol.append({'what': 'C07 ' + m, 'detail': {'files': files}})
     ses.clean_tmp()
@@ -1013,4 +1114,6 @@ def run_case(case, ctx):
         return run_perm(case, ctx)
     if k == 'defect':
         return run_defect(case, ctx)
+    if k == 'actmerge':
+        return run_actmerge(case, ctx)
     return run_graph(case, ctx)
